@@ -16,37 +16,45 @@ ERE_META = set('.[]()*+?{}|^$\\')
 GNU_BACKSLASH_OPERATORS = set('wWsSbB<>`\'123456789')
 
 
-def switch_table(f):
-    """{case value: set(actions)} for the first switch over a char parameter/local; actions: 'true','false','param:<n>'"""
-    sw = [n for n in f.walk() if n['k'] == 'SwitchStmt']
-    if not sw:
-        raise AnalysisBroken('%s: no switch statement' % f.q)
-    return sw[0]
+def char_dispatch(f):
+    """the first multi-way dispatch on character constants in f (a switch or an if/else-if chain, msa.ast.dispatch_tables)"""
+    ts = [t for t in A.dispatch_tables(f, min_cases=2) if sum(len(v) for (v, _) in t['cases'] if v != 'default') >= 3]
+    if not ts:
+        raise AnalysisBroken('%s: no dispatch over character constants (switch or if/else-if chain)' % f.q)
+    return ts[0]
+
+
+def escape_flag(f):
+    """decl id of the translator's escape-mode flag: the bool local that the dispatch case for the backslash character sets to true (whatever it is called)"""
+    try:
+        tab = char_dispatch(f)
+    except AnalysisBroken:
+        return None
+    for (vals, stmts) in tab['cases']:
+        if vals != 'default' and 92 in vals:
+            for st in stmts:
+                for x in st.walk():
+                    if x['k'] == 'BinaryOperator' and x.get('op') == '=' and x['ch'][1].get('v') == 1 and A.strip_casts(x['ch'][0])['k'] == 'DeclRefExpr' and 'bool' in A.strip_casts(x['ch'][0]).type():
+                        return A.strip_casts(x['ch'][0]).get('d')
+    return None
 
 
 def token_sets(fx):
     f = fx.fn1('muscle::IsRegexToken')
-    sw = switch_table(f)
+    tab = char_dispatch(f)
     always, first = set(), set()
-    pending = []
-    for n in sw.role('body')['ch']:
-        x = n
-        while x is not None and x['k'] in ('CaseStmt', 'DefaultStmt'):
-            if x['k'] == 'CaseStmt':
-                pending.append(x.get('cv'))
-            else:
-                pending.append('default')
-            x = x['ch'][-1] if x['ch'] else None
-        if x is not None and x['k'] == 'ReturnStmt':
-            e = A.strip_casts(x['ch'][0])
-            for cv in pending:
-                if cv == 'default':
-                    continue
-                if e.get('v') == 1:
-                    always.add(chr(cv))
-                elif e['k'] == 'DeclRefExpr' and e.get('d') == f.params[1]['d']:
-                    first.add(chr(cv))
-            pending = []
+    for (vals, stmts) in tab['cases']:
+        if vals == 'default':
+            continue
+        rets = [x for st in stmts for x in st.walk() if x['k'] == 'ReturnStmt' and x['ch']]
+        if not rets:
+            continue
+        e = A.strip_casts(rets[0]['ch'][0])
+        for cv in vals:
+            if e.get('v') == 1:
+                always.add(chr(cv))
+            elif e['k'] == 'DeclRefExpr' and e.get('d') == f.params[1]['d']:
+                first.add(chr(cv))
     if len(always) < 8:
         raise AnalysisBroken('IsRegexToken: could not read the token table')
     return f, always, first
@@ -79,25 +87,16 @@ def run(res, tier):
            message='SetPattern treats %s specially in the first position but IsRegexToken(c, true) is false: EscapeRegexTokens leaves it unescaped, so an "escaped" string starting with it is parsed as a '
                    'pattern (e.g. EscapeRegexTokens("`abc") matches "xabcx")' % missing)
     # translator switch
-    sw = switch_table(f)
+    tab = char_dispatch(f)
+    sw = tab['node']
     special, neutral = set(), set()
-    pending = []
-    for n in sw.role('body')['ch']:
-        x = n
-        while x is not None and x['k'] in ('CaseStmt', 'DefaultStmt'):
-            pending.append(x.get('cv') if x['k'] == 'CaseStmt' else 'default')
-            x = x['ch'][-1] if x['ch'] else None
-        # the statement(s) up to the break belong to the pending cases; a case that appends a backslash makes the character literal
-        if x is not None:
-            adds_bs = any(y['k'] == 'CharacterLiteral' and y.get('v') == 92 for y in x.walk()) and any((y.get('q') or '').endswith('String::operator+=') for y in x.walk() if y.is_call())
-            for cv in pending:
-                if cv == 'default':
-                    continue
-                (neutral if adds_bs else special).add(chr(cv))
-            if x['k'] == 'BreakStmt' or any(y['k'] == 'BreakStmt' for y in x.walk()):
-                pending = []
-            else:
-                pending = []
+    for (vals, stmts) in tab['cases']:
+        if vals == 'default':
+            continue
+        # a case that appends a backslash makes the character literal for the regex engine
+        adds_bs = any(y['k'] == 'CharacterLiteral' and y.get('v') == 92 for st in stmts for y in st.walk()) and any((y.get('q') or '').endswith('String::operator+=') for st in stmts for y in st.walk() if y.is_call())
+        for cv in vals:
+            (neutral if adds_bs else special).add(chr(cv))
     # '\\' case sets escapeMode: special
     missing = sorted(c for c in special if c not in always)
     res.ob('META-TABLE', f.where(sw), 'translator specials %s are tokens for IsRegexToken(c, false)' % sorted(special), not missing and bool(special), function=f.q,
@@ -115,7 +114,9 @@ def run(res, tier):
         a = c.args()
         if len(a) >= 2:
             x = A.strip_casts(a[1])
-            firstarg = x['k'] == 'BinaryOperator' and x.get('op') == '==' and set(A.strip_casts(y).get('d') for y in x['ch']) == set([g.params[0]['d'], next((v['d'] for v in g.walk() if v['k'] == 'VarDecl' and v.get('n') == 's'), None)])
+            # "is first" = (cursor == start): the cursor is a local pointer initialised from the string parameter, whatever it is called
+            cursors = set(v['d'] for v in g.walk() if v['k'] == 'VarDecl' and v['ch'] and A.strip_casts(v['ch'][0]).get('d') == g.params[0]['d'] and v.type().rstrip().endswith('*'))
+            firstarg = any(op_ == '==' and ((l_.get('d') in cursors and r_.get('d') == g.params[0]['d'])) for (l_, op_, r_) in A.rel_forms(G.local_init(g, x), True))
     bt = any(l['k'] == 'ArraySubscriptExpr' and l['ch'][1].get('v') == 0 and r.get('v') == 96
              for n in g.walk() if n['k'] == 'BinaryOperator' and n.get('op') in ('==', '!=') for (l, op_, r) in A.rel_forms(n, True))
     res.ob('META-TABLE', g.where(), 'CanWildcardStringMatchMultipleValues uses IsRegexToken(c, c is first) and treats a leading backtick as multi-match', bool(uses) and firstarg and bt, function=g.q,
@@ -129,10 +130,7 @@ def run(res, tier):
     # ------------------------------------------------------------------ ESCAPE-INJECTION
     res.rule('ESCAPE-INJECTION', 'in the translator\'s escape branch the backslash is dropped for every character c where "\\c" is an operator of the target regex dialect (letters, digits, ` \' < >)', floor=1)
     # find the escape-mode flag and the branch where it is true
-    flag = None
-    for n in f.walk():
-        if n['k'] == 'VarDecl' and n.get('n') == 'escapeMode':
-            flag = n['d']
+    flag = escape_flag(f)
     covered = set()
     drops = [c for c in f.walk() if c['k'] == 'CXXMemberCallExpr' and re.search(r'String::(TruncateChars|operator--)$', c.get('q') or '')]
     for d in drops:
@@ -217,7 +215,7 @@ def run(res, tier):
         raise AnalysisBroken('ESCAPE-PARITY: only %d escape-flag scanners found in StringMatcher.cpp' % n_ep)
     g = fx.fn1(SM + '::SetPattern')
     # the translation loop: the character appended to the regex is the pattern character itself unless rewritten OUTSIDE escape mode
-    em = [v for v in g.walk() if v['k'] == 'VarDecl' and v.get('n') == 'escapeMode']
+    em = [v for v in g.walk() if v['k'] == 'VarDecl' and v.get('d') is not None and v['d'] == escape_flag(g)]
     loads = [v for v in g.walk() if v['k'] == 'VarDecl' and v.type().strip() == 'char' and v['ch'] and any(a['k'] in ('ForStmt', 'WhileStmt') for a in v.ancestors())]
     if not em or not loads:
         raise AnalysisBroken('ESCAPE-PARITY: translation loop of SetPattern not found')
